@@ -37,7 +37,7 @@ RULE = (
     "per-sender order, no two threads inside _process_event at once, no thread raised; distinct_nontrivial = distinct (variant, engine, script, schedule, reception order)"
 )
 BOUNDS = {
-    "quick": "sync: sequences of length <=3 over 8 ops; async: scripts of length <=3 over a 3-point grid, all tie orders; sync threads: 6 producer sets, every line-level interleaving with <=1-2 preemptions",
+    "quick": "sync: sequences of length <=3 over 8 ops; async: scripts of length <=3 over a 3-point grid, all tie orders; sync threads: 7 producer sets, every line-level interleaving with <=1-2 preemptions",
     "thorough": "sync: length <=4; async: scripts of length <=4; sync threads: <=2-3 preemptions",
 }
 ASSUMPTIONS = [
@@ -285,6 +285,7 @@ PREEMPT = {
     "two-callers+timer": (1, 2),
     "raiser+caller": (1, 2),
     "leaver+timer": (1, 2),
+    "burst-during-drain": (1, 2),
 }
 
 
